@@ -6,7 +6,7 @@ namespace app {
 namespace json = boost::json;
 
 static const char* SK_NAMES[] = {
-    "Run", "Publish", "Subscribe", "Unsubscribe", "Receive", "CancelOp", "CancelClient", "Disconnect", "Destroy", "Recreate", "ReAuth",
+    "Run", "Publish", "Subscribe", "Unsubscribe", "Receive", "CancelOp", "CancelClient", "Disconnect", "Destroy", "Recreate", "ReAuth", "PublishBurst",
     "BrokerPublish", "BrokerDisconnect", "BrokerRestart", "BrokerBurst",
     "FByteCut", "FProto", "FWriteErr", "FConnect", "FResolve", "FHandshake", "FSessionPresent", "FStall", "FClockJump",
     "FPingSilent", "FHostileWindow", "FShutdownDelay", "FRaceTimer",
